@@ -97,6 +97,9 @@ func (r *report) fail(f failure) {
 		return
 	}
 	if len(r.Failures) < 40 {
+		if f.Input != nil && lastBufShape != "" {
+			f.Input["last_encode_buffer_shape"] = lastBufShape
+		}
 		for k, v := range f.Input {
 			if s, ok := v.(string); ok && len(s) > 20000 {
 				f.Input[k] = s[:20000] + fmt.Sprintf("...(%d chars)", len(s))
